@@ -48,7 +48,7 @@ type Work struct {
 	Cut     int    `json:"cut,omitempty"`      // >0: the source text handed to the interpreter ends after this many bytes (a program that arrives truncated)
 }
 
-const nSites = 135
+const nSites = 137
 const nWraps = 7
 
 func siteSrc(k int, id string) string {
@@ -340,6 +340,12 @@ func siteSrc(k int, id string) string {
 	// degenerate forms the grammar accepts: a spread with nothing to spread, a var statement without a right-hand side
 	case 133:
 		return "func zf" + id + "(a) { return a }\ntry { zf" + id + "(...) } catch { }\ntry { hid(...) } catch { }\nh(" + id + ")\nif " + id + " % 2 == 0 { zf" + id + "(...) }\nvar zv" + id + " ="
+	// objects built by a constructor function: a module declared in the function's body whose functions use the
+	// constructor's parameters after the constructor has returned
+	case 134:
+		return "func nc" + id + "(start) {\nmodule cm" + id + " {\nfunc get() { return start }\nfunc add(n) { return [start, n] }\n}\nreturn cm" + id + "\n}\nco" + id + " = nc" + id + "(h(" + id + "))\nhid(1)\ncv" + id + " = co" + id + ".get()\ncw" + id + " = co" + id + ".add(2)\ncv" + id
+	case 135:
+		return "func pt" + id + "(x, y) {\nmodule pm" + id + " {\nfunc gx() { return x }\nfunc gy() { return y }\n}\nreturn pm" + id + "\n}\nfunc tr" + id + "(n) {\nif n == 0 { return pt" + id + "(1, 2) }\nl" + id + ", r" + id + " = tr" + id + "(n - 1), tr" + id + "(n - 1)\nreturn l" + id + "\n}\nh(" + id + ")\npo" + id + " = tr" + id + "(2)\npt" + id + "(3, 4).gy()"
 	default:
 		return "x" + id + " = hid(1) & hid(\"z\")\ny" + id + " = hid(1.5) | hid(nil)\nz" + id + " = hid({}) ^ 1\nw" + id + " = hid([1, 2]) + hid({\"a\": 1})\nv" + id + " = hid(nil) < hid([1])\nu" + id + " = hid(func() { }) == hid(func() { })"
 	}
